@@ -171,5 +171,20 @@ CHECKS['C17'] = dict(
     note='Trusted: ply driver determinism, ply table (de)serialisation. setup.py build hook not exercised.',
 )
 
-NOT_APPLICABLE = {p: PENDING for p in ['C01', 'C02', 'C03', 'C04', 'C05', 'C07', 'C12',
+CHECKS['C12'] = dict(
+    engine='E4 + E1 pyvc',
+    level='other',
+    ref='DESIGN.md 4 (C12), 5',
+    technique='bounded executable contract (exhaustive short strings, truncations/corruptions, long inputs, time limit) with an independent message-position oracle; deductive safety contracts only on small error-path helpers',
+    text=('No contract within reach expresses termination of ply\'s table-driven driver or exception freedom of the whole pipeline, '
+          'so the deciding part is a bounded stand-in, labelled as such: every string up to a stated length over a lexical alphabet, '
+          'every truncation and sampled single-character corruption/insertion of generated programs and long repetitive inputs must '
+          'give a tree or the library\'s syntax error within 5 s, and every position quoted in a message must designate the quoted '
+          'text under ES5 line counting. Helpers on the error path (_is_prev_token_lt, _create_semi_token, format_lex_token) are '
+          'proved None-safe path by path. Three genuine defects found this way were repaired in the repository.'),
+    note=('Bounded, not proved. Trusted: ply raises nothing of its own. Repo fixes: backslash in broken strings, p_error without a '
+          'previous token, input ending in non-space white space.'),
+)
+
+NOT_APPLICABLE = {p: PENDING for p in ['C01', 'C02', 'C03', 'C04', 'C05', 'C07',
                                         'C13', 'C19']}
